@@ -251,6 +251,8 @@ pub struct ClientObs {
     pub established: Option<Result<(), String>>,
     pub established_at_ns: u64,
     pub replies: Vec<ReplyObs>,
+    /// (C18) when the first reply future was dropped
+    pub dropped_at_ns: Option<u64>,
 }
 
 /// the rounds of a case on an established session
@@ -334,20 +336,128 @@ pub fn run_case(case: &Case, plan: &Plan) -> Result<(ClientObs, Marks), String> 
 }
 
 fn run_case_inner(case: &Case, plan: &Plan) -> Result<(ClientObs, Marks), String> {
+    run_session(
+        case.transport,
+        &plan.script,
+        ClientPlan::Rounds(case.rounds.clone()),
+    )
+}
+
+/// what the client side of a session on a real transport does
+#[derive(Debug, Clone)]
+pub enum ClientPlan {
+    /// C06: rounds of pipelined requests, all awaited
+    Rounds(Vec<Round>),
+    /// C18: `k` pipelined requests; the first reply future - the one reading from the transport -
+    /// is awaited alone for `drop_after_ms` and then dropped; the others and one further request
+    /// must complete with their own replies
+    DropReader { k: usize, drop_after_ms: u64 },
+}
+
+async fn run_client<T: Transport + 'static>(
+    sess: &mut Session<T>,
+    plan: &ClientPlan,
+    obs: &mut ClientObs,
+) {
+    match plan {
+        ClientPlan::Rounds(rounds) => run_rounds(sess, rounds, obs).await,
+        ClientPlan::DropReader { k, drop_after_ms } => {
+            run_drop_reader(sess, *k, *drop_after_ms, obs).await;
+        }
+    }
+}
+
+async fn run_drop_reader<T: Transport + 'static>(
+    sess: &mut Session<T>,
+    k: usize,
+    drop_after_ms: u64,
+    obs: &mut ClientObs,
+) {
+    let wait = Duration::from_millis(6000);
+    let mut futs = Vec::new();
+    for m in 0..k {
+        match sess
+            .rpc::<GetConfig<Opaque>, _>(|b| b.source(Ds::Running.to_lib())?.finish())
+            .await
+        {
+            Ok(f) => futs.push((m, f)),
+            Err(e) => obs.replies.push(ReplyObs {
+                round: 0,
+                index: m,
+                result: Err(format!("send failed: {e:?}")),
+                at_ns: mono_ns(),
+            }),
+        }
+    }
+    if futs.is_empty() {
+        return;
+    }
+    // the first future reads from the transport; abandon it after a while
+    let (m0, first) = futs.remove(0);
+    match tokio::time::timeout(Duration::from_millis(drop_after_ms), first).await {
+        Ok(r) => obs.replies.push(ReplyObs {
+            round: 0,
+            index: m0,
+            result: r.map(|o| o.to_string()).map_err(|e| format!("{e:?}")),
+            at_ns: mono_ns(),
+        }),
+        Err(_) => obs.dropped_at_ns = Some(mono_ns()),
+    }
+    let results = futures::future::join_all(futs.into_iter().map(|(m, f)| async move {
+        let res = tokio::time::timeout(wait, f).await;
+        (m, res, mono_ns())
+    }))
+    .await;
+    for (m, res, at) in results {
+        obs.replies.push(ReplyObs {
+            round: 0,
+            index: m,
+            result: match res {
+                Err(_) => Err("TIMEOUT".to_string()),
+                Ok(Ok(o)) => Ok(o.to_string()),
+                Ok(Err(e)) => Err(format!("{e:?}")),
+            },
+            at_ns: at,
+        });
+    }
+    // the session remains usable
+    let extra = match sess
+        .rpc::<GetConfig<Opaque>, _>(|b| b.source(Ds::Running.to_lib())?.finish())
+        .await
+    {
+        Ok(f) => match tokio::time::timeout(wait, f).await {
+            Err(_) => Err("TIMEOUT".to_string()),
+            Ok(Ok(o)) => Ok(o.to_string()),
+            Ok(Err(e)) => Err(format!("{e:?}")),
+        },
+        Err(e) => Err(format!("send failed: {e:?}")),
+    };
+    obs.replies.push(ReplyObs {
+        round: 1,
+        index: 0,
+        result: extra,
+        at_ns: mono_ns(),
+    });
+}
+
+/// one session on a real transport: the scripted peer on one side, `client_plan` on the other
+pub fn run_session(
+    transport: Tr,
+    script: &Script,
+    client_plan: ClientPlan,
+) -> Result<(ClientObs, Marks), String> {
     let rt = tokio::runtime::Builder::new_multi_thread()
         .worker_threads(2)
         .enable_all()
         .build()
         .map_err(|e| format!("runtime: {e}"))?;
-    let script = plan.script.clone();
-    let rounds = case.rounds.clone();
-    let transport = case.transport;
+    let script = script.clone();
     let out = rt.block_on(async move {
         let mut obs = ClientObs::default();
         let est_wait = Duration::from_millis(2 * NUDGE_MS + 2000);
         match transport {
             Tr::Tls => {
-                let listener = TcpListener::bind("127.0.0.1:0").await.map_err(|e| e.to_string())?;
+                let listener = net::bind_local().map_err(|e| e.to_string())?;
                 let port = listener.local_addr().map_err(|e| e.to_string())?.port();
                 let acceptor = net::tls_acceptor("server.crt", "server.key");
                 let server = tokio::spawn(net::tls_server(listener, acceptor, script, PreClose::None));
@@ -364,7 +474,7 @@ fn run_case_inner(case: &Case, plan: &Plan) -> Result<(ClientObs, Marks), String
                 match est {
                     Ok(Ok(mut sess)) => {
                         obs.established = Some(Ok(()));
-                        run_rounds(&mut sess, &rounds, &mut obs).await;
+                        run_client(&mut sess, &client_plan, &mut obs).await;
                         drop(sess);
                     }
                     Ok(Err(e)) => obs.established = Some(Err(format!("{e:?}"))),
@@ -378,7 +488,7 @@ fn run_case_inner(case: &Case, plan: &Plan) -> Result<(ClientObs, Marks), String
                 Ok::<_, String>((obs, marks))
             }
             Tr::Ssh => {
-                let listener = TcpListener::bind("127.0.0.1:0").await.map_err(|e| e.to_string())?;
+                let listener = net::bind_local().map_err(|e| e.to_string())?;
                 let port = listener.local_addr().map_err(|e| e.to_string())?.port();
                 let server = tokio::spawn(net::ssh_server(
                     listener,
@@ -400,7 +510,7 @@ fn run_case_inner(case: &Case, plan: &Plan) -> Result<(ClientObs, Marks), String
                 match est {
                     Ok(Ok(mut sess)) => {
                         obs.established = Some(Ok(()));
-                        run_rounds(&mut sess, &rounds, &mut obs).await;
+                        run_client(&mut sess, &client_plan, &mut obs).await;
                         drop(sess);
                     }
                     Ok(Err(e)) => obs.established = Some(Err(format!("{e:?}"))),
@@ -426,7 +536,7 @@ fn run_case_inner(case: &Case, plan: &Plan) -> Result<(ClientObs, Marks), String
                 match est {
                     Ok(Ok(mut sess)) => {
                         obs.established = Some(Ok(()));
-                        run_rounds(&mut sess, &rounds, &mut obs).await;
+                        run_client(&mut sess, &client_plan, &mut obs).await;
                         drop(sess);
                     }
                     Ok(Err(e)) => obs.established = Some(Err(format!("{e:?}"))),
